@@ -159,7 +159,12 @@ static int utls_init(struct xcm_socket *s, struct xcm_socket *parent)
 	create_sub_socket(tls_proto(), s->type, s->xpoll, tls_parent);
 
     if (us->ux_socket == NULL || us->tls_socket == NULL) {
+	if (us->ux_socket != NULL)
+	    xcm_tp_socket_close(us->ux_socket);
+	if (us->tls_socket != NULL)
+	    xcm_tp_socket_close(us->tls_socket);
 	xcm_tp_socket_destroy(us->ux_socket);
+	xcm_tp_socket_destroy(us->tls_socket);
 	return -1;
     }
 
@@ -308,8 +313,10 @@ static int utls_server(struct xcm_socket *s, const char *local_addr)
     char ux_addr[XCM_ADDR_MAX+1];
     map_tls_to_ux(actual_addr, ux_addr, sizeof(ux_addr));
 
-    if (bind_sub_server(&us->ux_socket, ux_addr) <  0)
+    if (bind_sub_server(&us->ux_socket, ux_addr) <  0) {
+	xcm_tp_socket_close(us->tls_socket);
 	goto err;
+    }
 
     LOG_SERVER_CREATED(s);
 
